@@ -38,7 +38,7 @@ def run(chk, replay=None):
     state.current_sign_convention = 'passive'
     rng = chk.rng
     quick = chk.tier == 'quick'
-    ncases = 25 if quick else 300
+    ncases = 30 if quick else 300
     chk.coverage['rule'] = ('random connected netlists (R C L V I E G F H TF, step sources, with/without initial conditions) x a random '
                             'node pair (grounded or floating port); loads R, series RC, series RL, R + step source; probe currents; '
                             'non-trivial = Lcapy returns a Thevenin model with Z != 0 and the Lean model is non-singular; distinct by text + port')
@@ -54,8 +54,8 @@ def run(chk, replay=None):
         x = x.subs(ss.sympy, R_(sp))
         return common.gauss_rational(S.simplify(x))
 
-    for k in range(ncases):
-        case = gen_netlist.random_case(rng, analysis=rng.choice(['s', 's', 'ivp']), max_nodes=5)
+    def one_case(case):
+        nonlocal n_cex
         if any(l.split()[0][:2] in ('TR', 'AM', 'GY') or l.split()[0][0] in 'KW' for l in case['lines']):
             chk.count('skipped', 'kind-not-used-here')
         subs = case['subs']
@@ -65,7 +65,7 @@ def run(chk, replay=None):
             cct = lcapy.Circuit(text)
             nodes = [n for n in cct.node_list]
             if len(nodes) < 2:
-                continue
+                return
             p, m = rng.sample(nodes, 2)
             if rng.random() < 0.5 and '0' in nodes and p != '0':
                 m = '0'
@@ -78,11 +78,11 @@ def run(chk, replay=None):
         except Exception as e:   # noqa
             chk.count('lcapy-error', type(e).__name__ + ':' + str(e)[:40])
             chk.case(('err', text), False)
-            continue
+            return
         if None in (Voc, Z, Isc, Y):
             chk.count('lcapy', 'non-rational-sample')
             chk.case(('nr', text), False)
-            continue
+            return
         chk.count('analysis', case['analysis'])
         chk.count('port', 'grounded' if m == '0' or p == '0' else 'floating')
         nontriv = Z != (0, 0)
@@ -217,8 +217,28 @@ def run(chk, replay=None):
             else:
                 chk.count('model', (rep if not rep.startswith('ok') else rep2)[:30])
 
+
+    done = 0
+    attempts = 0
+    while done < ncases and attempts < 6 * ncases:
+        attempts += 1
+        case = gen_netlist.random_case(rng, analysis=rng.choice(['s', 's', 'ivp']), max_nodes=5)
+        # keep only circuits the Lean model finds non-singular at a probe point (ill-posed draws are outside the property)
+        pre = drv.ask1('mna.solve %s 5/3 || %s' % ('ivp' if any(l.split()[0][0] in 'CL' and len(l.split()) == 5 for l in case['lines']) else 's',
+                                                    ' || '.join(case['lines'])))
+        if not pre.startswith('ok'):
+            chk.count('generator', 'rejected:' + pre.split(':')[0][:20])
+            continue
+        done += 1
+        try:
+            with common.time_limit(60 if quick else 120):
+                one_case(case)
+        except common.TimeLimit:
+            chk.count('lcapy-error', 'time-limit')
+            chk.case(('timeout', tuple(case['lcapy'])), False)
+
     chk.coverage['correspondence']['samples_of_disagreement'] = disagreements[:5]
-    if broken and n_cex == 0 and not chk.known_seen:
+    if broken and n_cex == 0:
         for b in broken[:20]:
             chk.unexplained('broken-obligation', b, chk.coverage.get('build_log_tail', '')[-600:])
     if disagreements and n_cex == 0:
